@@ -212,14 +212,17 @@ HDR_DEFAULT = None
 
 
 def gen_header(rng, ed):
-    """15 Section 1 values legal for the edition: master table 0, centre/sub-centre, update, categories, versions, date"""
+    """15 Section 1 values legal for the edition: master table 0, centre/sub-centre, update, categories, versions, date.
+    (16-bit sub-centre / year values >= 32768 are encoded, but bufr_read_message refuses such a message - the Section 1
+    fields are `short` -; they are generated rarely because they end the second, decoding, stage for the case.)"""
     big = ed >= 4
+    top = 65535 if rng.random() < 0.1 else 32767
     return [0,
             rng.choice([0, 54, 255, 65535 if big else 255, rng.randint(0, 65535 if big else 255)]),
-            rng.choice([0, 1, 255, 65535 if big else 255, rng.randint(0, 65535 if big else 255)]) if ed >= 3 else 0,
+            rng.choice([0, 1, 255, top if big else 255, rng.randint(0, 32767 if big else 255)]) if ed >= 3 else 0,
             rng.choice([0, 1, 255]), rng.choice([0, 2, 255]), rng.choice([0, 7, 255]) if big else 0, rng.choice([0, 9, 255]),
             rng.choice([13, 17, 31, 255]), rng.choice([0, 1, 255]),
-            rng.choice([2000, 2020, 2026, 1999, 65535, 0]) if big else rng.choice([2000, 2020, 1999, 2001, 2100]),
+            rng.choice([2000, 2020, 2026, 1999, top, 0]) if big else rng.choice([2000, 2020, 1999, 2001, 2100]),
             rng.choice([1, 12, 0]), rng.choice([1, 31, 0]), rng.choice([0, 23]), rng.choice([0, 59]), rng.choice([0, 59]) if big else 0]
 
 
@@ -586,7 +589,7 @@ class Stage:
             r = parse_out(o) if o else None
             parsed.append(r)
             di = li = None
-            if r and r["head"].get("rc") == "0" and r["msgs"]:
+            if r and r["head"].get("rc") == "0" and r["msgs"] and not c.get("no_oracle"):
                 dq = dump_request(r["msgs"])
                 if dq:
                     di = len(mreq); mreq.append(dq)
@@ -676,7 +679,7 @@ class Stage:
                                   % (la + 1, ln_a[:80], ln_b[:80], key[:240]),
                                   dict(robj, correspondence="bufr_fdump_dataset vs Dump.print_dataset", model=mout[di][:300]), no_input=not fails)
                     self.nviol += 1
-            else:
+            elif not c.get("no_oracle"):
                 feat["text_not_modelled"] += 1
             # -- correspondence: loader
             if li is not None and li < len(mout):
